@@ -360,6 +360,11 @@ func (s *grpcServer) Write(srv bytestream.ByteStream_WriteServer) error {
 	var resp bytestream.WriteResponse
 	pr, pw := io.Pipe()
 
+	// Whatever way this function returns, make sure that the receive
+	// goroutine below cannot stay blocked in pw.Write forever (which
+	// happened when the Put call ended before all data was consumed).
+	defer func() { _ = pr.Close() }()
+
 	putResult := make(chan error, 1)
 	recvResult := make(chan error, 1)
 	resourceNameChan := make(chan string, 1)
